@@ -37,7 +37,12 @@ Record sinfo := {
   (* s.serialize() read back by the library's own reader, TrajectoryParser(domain, problem).parse_state, with the
      group's object table / without a problem: (s' == s and s == s', s'.serialize()); None: not observed *)
   si_rb_with : option (obs (bool * string));
-  si_rb_ded : option (obs (bool * string))
+  si_rb_ded : option (obs (bool * string));
+  (* wave 3: s.typed_serialize(), s.copy().typed_serialize(), str(hash(s)) (State defines __eq__ and no __hash__: it is
+     unhashable, the call raises) *)
+  si_tser : option (obs string);
+  si_copy_tser : option (obs string);
+  si_hash : option (obs string)
 }.
 
 Record env := {
@@ -62,7 +67,8 @@ Section Judge.
 
   Definition dummy : sinfo :=
     {| si_dump := empty_state false; si_want := None; si_ser := Raised; si_self_eq := Raised; si_copy_eq := Raised;
-       si_copy_ser := Raised; si_indep := Raised; si_src_rep := false; si_src_int := false; si_rb_with := None; si_rb_ded := None |}.
+       si_copy_ser := Raised; si_indep := Raised; si_src_rep := false; si_src_int := false; si_rb_with := None; si_rb_ded := None;
+       si_tser := None; si_copy_tser := None; si_hash := None |}.
   Definition st (i : nat) : sinfo := nth i (e_states E) dummy.
 
   Definition den (s : mstate) : state := {| facts := den_facts s; fluents := den_fluents s |}.
@@ -126,6 +132,39 @@ Section Judge.
     match si_rb_with i with Some o => rb_ok o (want i) | None => true end &&
     match si_rb_ded i with Some o => rb_ok o (want i) | None => true end.
 
+  (* ---------- typed_serialize: the model's text (as token trees), and the independent reading of the typed text ---------- *)
+  Definition tree_of (o : obs string) : obs sexp :=
+    match o with Returned t => obs_of_result (parse MFile (unesc t)) | Raised => Raised end.
+
+  Definition tser_agrees (s : mstate) (o : option (obs string)) : bool :=
+    match o with
+    | Some o' => obs_eqb sexp_eqb
+                   (match typed_serialize num_text s with Ok t => obs_of_result (parse MFile (s2t t)) | Err _ => Raised end)
+                   (tree_of o')
+    | None => true
+    end.
+
+  Definition typed_reads_as (o : option (obs string)) (w : state) : bool :=
+    match o with
+    | Some (Returned t) =>
+        match parse MFile (unesc t) with
+        | Ok e => match read_typed_state num_parse e with Some s => state_same s w | None => false end
+        | Err _ => false
+        end
+    | Some Raised => false
+    | None => true
+    end.
+
+  (* hash(state): the model of the code that exists says TypeError *)
+  Definition hash_agrees (o : option (obs string)) : bool :=
+    match o with Some (Returned _) => false | _ => true end.
+  (* hash-like observables, should State ever have them: the same value gives the same hash *)
+  Definition hash_ok (a b : sinfo) (same : bool) : bool :=
+    match si_hash a, si_hash b with
+    | Some (Returned x), Some (Returned y) => if same then String.eqb x y else true
+    | _, _ => true
+    end.
+
   Definition judge_state (i : sinfo) : verdict :=
     let s := si_dump i in
     {| v_agree :=
@@ -135,13 +174,15 @@ Section Judge.
          obs_eqb Bool.eqb (Returned (state_eq num_text s s)) (si_self_eq i) &&
          obs_eqb Bool.eqb (Returned (state_eq num_text (state_copy s) s && state_eq num_text s (state_copy s))) (si_copy_eq i) &&
          reads_as (si_copy_ser i) (st_init s) (den (state_copy s)) &&
-         rb_agree_all i;
+         rb_agree_all i &&
+         tser_agrees s (si_tser i) && tser_agrees (state_copy s) (si_copy_tser i) && hash_agrees (si_hash i);
        v_ok :=
          state_same (den s) (want i) &&                 (* the object holds the intended facts and fluents *)
          reads_as (si_ser i) (st_init s) (want i) &&    (* its text reads back as the intended state *)
          is_true (si_self_eq i) && is_true (si_copy_eq i) &&
          reads_as (si_copy_ser i) (st_init s) (want i) &&
          is_true (si_indep i) &&
+         typed_reads_as (si_tser i) (want i) && typed_reads_as (si_copy_tser i) (want i) &&
          rb_ok_all i;                                   (* ... also through the library's own reader *)
        v_known := known_state i |}.
 
@@ -154,7 +195,8 @@ Section Judge.
       end in
     {| v_agree := obs_eqb Bool.eqb (Returned (state_eq num_text (si_dump a) (si_dump b))) eq_ab;
        v_ok := obs_eqb Bool.eqb (Returned same) eq_ab &&
-               match texts_same with Some t => Bool.eqb t same | None => false end;
+               match texts_same with Some t => Bool.eqb t same | None => false end &&
+               hash_ok a b same;
        v_known := known_state a || known_state b |}.
 
   (* the repr table is consistent with the float() table: float(repr(x)) is x, for every value of this run
